@@ -89,8 +89,8 @@ func checkElementLoop(c *Ctx, rule string, res *Result, coll string) {
 		atoms := t.atoms()
 		pos := c.P.InstrPos(t.Instr)
 		// generic index in range and exit by exhaustion
-		inRange := atoms["(i* + 1) < len("+coll+")"] || atoms["i* < len("+coll+")"]
-		exhausted := atoms["!(((i* + 1) + 1) < len("+coll+"))"] || atoms["!((i* + 1) < len("+coll+"))"]
+		ls := loopShapeOf(atoms, coll)
+		inRange, exhausted := ls.Gen, ls.Exhausted
 		startsAtZero := loopStartsAtZero(t, coll)
 		if inRange && exhausted && startsAtZero {
 			c.ok(rule+"/whole-range", fname, "loop over "+coll, pos, "index starts at 0, step 1, bounded by len("+coll+"), loop left by exhaustion")
@@ -396,8 +396,55 @@ func ruleC05(c *Ctx) {
 			nb := parsedAP(acc[0], "A.Conditions.NotBefore")
 			noa := parsedAP(acc[0], "A.Conditions.NotOnOrAfter")
 			all := func(t *Terminal) bool { return true }
-			truthTable(c, "C05-R1", fname, "InvalidTime from Conditions.NotBefore", c.P.Pos(vc.Root.Pos()), acc, nowAP, nb, all, raisedBy(nb), map[int]bool{-1: true, 0: false, 1: false})
-			truthTable(c, "C05-R1", fname, "InvalidTime from Conditions.NotOnOrAfter", c.P.Pos(vc.Root.Pos()), acc, nowAP, noa, all, raisedBy(noa), map[int]bool{-1: false, 0: true, 1: true})
+			_ = all
+			_ = raisedBy
+			// joint truth table over the 9 orderings of (now vs NotBefore, now vs NotOnOrAfter): the warning is raised
+			// exactly when now < NotBefore or now >= NotOnOrAfter. (A per-bound table would misjudge `if early || late`,
+			// where the second comparison is not evaluated once the first is true.)
+			raised := func(t *Terminal) bool {
+				for _, e := range storesToField(t, "InvalidTime") {
+					if b, ok := constBool(e.Val); ok && b {
+						return true
+					}
+				}
+				return false
+			}
+			for _, o1 := range []int{-1, 0, 1} {
+				for _, o2 := range []int{-1, 0, 1} {
+					want := o1 < 0 || o2 >= 0
+					nT, nD := 0, 0
+					for _, t := range acc {
+						if !consistent(t, nowAP, nb, o1) || !consistent(t, nowAP, noa, o2) {
+							continue
+						}
+						nT++
+						if raised(t) {
+							nD++
+						}
+					}
+					key := "InvalidTime @ " + strings.Replace(ordNames[o1], "bound", "NotBefore", 1) + ", " + strings.Replace(ordNames[o2], "bound", "NotOnOrAfter", 1)
+					pos := c.P.Pos(vc.Root.Pos())
+					switch {
+					case nT == 0:
+						c.undecided("C05-R1", fname, key, pos, "no accepting path is consistent with this ordering")
+					case want && nD == nT:
+						c.ok("C05-R1", fname, key, pos, fmt.Sprintf("warning raised on all %d consistent paths", nT))
+					case !want && nD == 0:
+						c.ok("C05-R1", fname, key, pos, fmt.Sprintf("warning raised on none of %d consistent paths", nT))
+					default:
+						c.bad("C05-R1", fname, key, pos, fmt.Sprintf("time warning wrong for this ordering: required raised=%v, but it is raised on %d of %d consistent paths", want, nD, nT))
+					}
+				}
+			}
+			// both bounds are compared on every accepting path that does not already raise on the first
+			for _, t := range acc {
+				if !mentionsCmp(t, nowAP, nb) {
+					c.bad("C05-R1", fname, "NotBefore compared with the clock", c.P.InstrPos(t.Instr), "an accepting path never compares the clock with Conditions NotBefore")
+				}
+				if !mentionsCmp(t, nowAP, noa) && !raised(t) {
+					c.bad("C05-R1", fname, "NotOnOrAfter compared with the clock", c.P.InstrPos(t.Instr), "an accepting path never compares the clock with Conditions NotOnOrAfter")
+				}
+			}
 			checkOperands(c, "C05-R2", fname, acc, []string{"A.Conditions.NotBefore", "A.Conditions.NotOnOrAfter"})
 			// InvalidTime is only ever stored true, and only under a time-comparison guard
 			for _, t := range acc {
@@ -526,11 +573,9 @@ func ruleC06(c *Ctx) {
 				}
 			}
 		}
-		outerZero := atoms["!(0 < len("+AR+"))"]
-		outerGen := atoms["(i* + 1) < len("+AR+")"]
-		innerZero := atoms["!(0 < len("+AU+"))"]
-		innerGen := atoms["(i* + 1) < len("+AU+")"]
-		innerExhausted := atoms["!(((i* + 1) + 1) < len("+AU+"))"]
+		outer, inner := loopShapeOf(atoms, AR), loopShapeOf(atoms, AU)
+		outerZero, outerGen := outer.Zero, outer.Gen
+		innerZero, innerGen, innerExhausted := inner.Zero, inner.Gen, inner.Exhausted
 		matched := atoms[matchAtom]
 		noMatch := atoms[negAtom(matchAtom)]
 		switch {
@@ -564,10 +609,16 @@ func ruleC06(c *Ctx) {
 		atoms := t.atoms()
 		pos := c.P.InstrPos(t.Instr)
 		otu := false
+		otuExpr := false
 		for _, e := range storesToField(t, "OneTimeUse") {
 			if strings.HasPrefix(apLval(e.Addr), "new<complit>") {
 				b, ok := constBool(e.Val)
 				otu = otu || (ok && b)
+				// the flag may also be assigned the presence test itself
+				if v := ap(e.Val); v == "(A.Conditions.OneTimeUse != nil)" || v == "!(A.Conditions.OneTimeUse == nil)" {
+					otuExpr = true
+					continue
+				}
 				if !ok || !b {
 					c.bad("C06-R3", fname, "store WarningInfo.OneTimeUse", c.P.InstrPos(e.Instr), "OneTimeUse stored "+ap(e.Val))
 				}
@@ -575,7 +626,10 @@ func ruleC06(c *Ctx) {
 		}
 		present := atoms["!(A.Conditions.OneTimeUse == nil)"]
 		absent := atoms["A.Conditions.OneTimeUse == nil"]
-		if present || absent {
+		if otuExpr {
+			nOTU++
+			c.ok("C06-R3", fname, "OneTimeUse <=> condition present", pos, "flag assigned the presence test (conditions.OneTimeUse != nil)")
+		} else if present || absent {
 			nOTU++
 			c.check(otu == present, "C06-R3", fname, "OneTimeUse <=> condition present", pos, "flag mirrors presence", fmt.Sprintf("OneTimeUse warning=%v although condition present=%v", otu, present))
 		} else {
@@ -625,13 +679,14 @@ func ruleC06(c *Ctx) {
 			}
 		}
 		wantElem := "A.Conditions.ProxyRestriction.Audience[*].Value"
-		through := atoms["(i* + 1) < len(A.Conditions.ProxyRestriction.Audience)"]
-		zeroIter := atoms["!(0 < len(A.Conditions.ProxyRestriction.Audience))"]
+		pls := loopShapeOf(atoms, "A.Conditions.ProxyRestriction.Audience")
+		through := pls.Gen
+		zeroIter := pls.Zero
 		if !through && !zeroIter {
 			c.bad("C06-R3", fname, "ProxyRestriction.Audience accumulate", pos, "the summary is produced without iterating the signed ProxyRestriction Audience list")
 		}
 		if through {
-			exhausted := atoms["!(((i* + 1) + 1) < len(A.Conditions.ProxyRestriction.Audience))"]
+			exhausted := pls.Exhausted
 			c.check(len(apps) == 1 && apps[0] == wantElem && exhausted, "C06-R3", fname, "ProxyRestriction.Audience accumulate", pos, "one append of "+wantElem+" per iteration, loop left by exhaustion",
 				fmt.Sprintf("audience list not reproduced in order: appends per iteration=%v exhausted=%v", apps, exhausted))
 		}
